@@ -34,10 +34,18 @@ const ERRNOS: [(i32, &str); 10] = [
 
 /// Child body: open the directory under the armed fault and describe the result.
 fn child_open(dir: &std::path::Path, key: u64, fault: Option<(usize, i64, i32, bool)>, budget: i64) -> Vec<u8> {
+    child_open_mode(dir, key, fault, false, budget)
+}
+
+fn child_open_mode(dir: &std::path::Path, _key: u64, fault: Option<(usize, i64, i32, bool)>, short_then_error: bool, budget: i64) -> Vec<u8> {
     shim::reset_all();
     shim::set_root(dir);
     if let Some((cls, nth, errno, persistent)) = fault {
-        shim::fault(cls, nth, errno, persistent);
+        if short_then_error {
+            shim::fault_short_read_then_error(nth, errno);
+        } else {
+            shim::fault(cls, nth, errno, persistent);
+        }
     }
     if budget > 0 {
         shim::budget(budget);
@@ -47,6 +55,7 @@ fn child_open(dir: &std::path::Path, key: u64, fault: Option<(usize, i64, i32, b
     shim::pause(true);
     shim::budget(-1);
     let counts = shim::counts();
+    let delivered = shim::delivered();
     let mut out = String::new();
     match r {
         Ok(log) => {
@@ -60,6 +69,7 @@ fn child_open(dir: &std::path::Path, key: u64, fault: Option<(usize, i64, i32, b
     for c in counts.iter() {
         out.push_str(&format!("{} ", c));
     }
+    out.push_str(&format!("\ndelivered={}", delivered));
     out.into_bytes()
 }
 
@@ -80,12 +90,13 @@ impl Monitor for C11 {
             ("injections_class_read", tier.pick(5_000, 100_000)),
             ("injections_class_readdir", tier.pick(1_000, 20_000)),
             ("injections_class_opendir", tier.pick(500, 10_000)),
+            ("injections_short_read_then_error", tier.pick(1_000, 20_000)),
             ("injections_into_non_first_wal_file", tier.pick(2_000, 40_000)),
             ("images_with_3_or_more_files", tier.pick(30, 600)),
         ]
     }
     fn rule(&self) -> String {
-        "case = one WAL image (1..8 files) produced by a generated history; per image the recovery's traced opendir/readdir/open/read/lseek calls are counted in a fault-free child, then EVERY n-th call of every class is failed once and from-then-on with each of 10 errnos in a fresh forked child (exhaustive per image over injection points); evaluation = one injected recovery; oracle: the child must return Err(IoError) before a logical budget of 10x the fault-free traced calls + 1000; distinct_nontrivial = distinct (image, class, n, errno, mode) injections that hit a call after the first WAL file was opened".into()
+        "case = one WAL image (1..8 files) produced by a generated history; per image the recovery's traced opendir/readdir/open/read/lseek calls are counted in a fault-free child, then EVERY n-th call of every class is failed once and from-then-on with each of 10 errnos in a fresh forked child (exhaustive per image over injection points); evaluation = one injected recovery; plus a bad-sector model (every read of recovery served short, the read that follows failing); oracle: the child must return Err(IoError) before a logical budget of 10x the fault-free traced calls + 1000; distinct_nontrivial = distinct (image, class, n, errno, mode) injections that hit a call after the first WAL file was opened".into()
     }
     fn assumptions(&self) -> Vec<String> {
         vec![
@@ -184,6 +195,9 @@ impl Monitor for C11 {
                         };
                         let phase = if non_first { "later-file" } else { "first-file-or-listing" };
                         match &end {
+                            ChildEnd::Exited(0, out) if String::from_utf8_lossy(out).contains("delivered=0") => {
+                                acc.count("injections_never_delivered_(call_not_reached)");
+                            }
                             ChildEnd::Exited(0, out) => {
                                 let s = String::from_utf8_lossy(out).to_string();
                                 let first = s.lines().next().unwrap_or("").to_string();
@@ -232,6 +246,46 @@ impl Monitor for C11 {
                             return;
                         }
                     }
+                }
+            }
+        }
+        // "bad sector" leg: every read of recovery served short, the following read failing
+        let n_reads = counts[CL_READ];
+        for nth in 1..=n_reads {
+            for &(errno, ename) in ERRNOS.iter().take(3) {
+                img.materialize(&dir);
+                let end = in_child(60, 600, || child_open_mode(&dir, key, Some((CL_READ, nth, errno, false)), true, budget));
+                acc.eval();
+                acc.count("injections");
+                acc.count("injections_short_read_then_error");
+                let spec = json!({"class": "read", "nth_call_of_class": nth, "model": "nth read served short (half), next read fails", "errno": ename});
+                let detail = |obs: serde_json::Value| json!({"history": run.history_json(run.ops.len()), "image": img.describe(), "injection": spec, "observation": obs});
+                match &end {
+                    ChildEnd::Exited(0, out) if String::from_utf8_lossy(out).contains("delivered=0") => {
+                        // the shortened read hit the end of the file: no error was injected
+                        acc.count("injections_never_delivered_(call_not_reached)");
+                    }
+                    ChildEnd::Exited(0, out) => {
+                        let first = String::from_utf8_lossy(out).lines().next().unwrap_or("").to_string();
+                        if first.starts_with("IO ") {
+                            acc.count("outcome_reported_io_error");
+                        } else if first.starts_with("OK ") {
+                            let same = first[3..] == base_digest;
+                            acc.violation(format!("C11/io-error-swallowed-open-returned-Ok/read/short-read-then-error/{}", if same { "state-complete" } else { "state-partial" }), case, detail(json!({"open": "Ok", "state_equals_fault_free_state": same})));
+                        } else {
+                            acc.violation("C11/io-error-reported-as-corruption/read/short-read-then-error", case, detail(json!({"open": first})));
+                        }
+                    }
+                    ChildEnd::Exited(c, _) if *c == EXIT_BUDGET => {
+                        acc.violation("C11/retries-forever-budget-exhausted/read/short-read-then-error", case, detail(json!({})));
+                    }
+                    ChildEnd::Exited(c, out) if *c == EXIT_PANIC => {
+                        acc.violation("C11/panic-instead-of-io-error/read/short-read-then-error", case, detail(json!({"panic": String::from_utf8_lossy(out)})));
+                    }
+                    other => acc.inconclusive(format!("injection child ended unexpectedly: {:?}", other)),
+                }
+                if acc.violations.len() >= 40 {
+                    return;
                 }
             }
         }
